@@ -320,7 +320,14 @@ func sHigher(c *Ctx, rule string) {
 // ---------------------------------------------------------------------------
 
 func sDurable(c *Ctx, rule string) {
-	// leader append
+	sDurableDispatch(c, rule)
+	sDurableFollower(c, rule)
+	sDurableElect(c, rule)
+	c06R5(c, rule)
+}
+
+// sDurableDispatch: the leader's own append.
+func sDurableDispatch(c *Ctx, rule string) {
 	if fn := c.Fn(rule, "(*Raft).dispatchLogs"); fn != nil {
 		r := c.Run(&engine.Automaton{Fn: fn, Tracks: []engine.Track{
 			engine.Event("store", c.P.IsCallTo(engine.Is("iface:LogStore.StoreLogs")), "errLoop"),
@@ -367,7 +374,10 @@ func sDurable(c *Ctx, rule string) {
 			c.Check(rule, "dispatchLogs:self-match-args", c.P.InstrPos(s.Instr), "match(localID, the same last index that setLastLog publishes)", a0 == "recv.localID" && a1 == ll && ll != "", "match("+a0+", "+a1+"), setLastLog("+ll+", …)", 1)
 		}
 	}
-	// follower append
+}
+
+// sDurableFollower: the follower's append.
+func sDurableFollower(c *Ctx, rule string) {
 	if fn := c.Fn(rule, "(*Raft).appendEntries"); fn != nil {
 		succ := c.Field(rule, "AppendEntriesResponse", "Success")
 		newEntries := ""
@@ -397,7 +407,10 @@ func sDurable(c *Ctx, rule string) {
 			}
 		}
 	}
-	// vote
+}
+
+// sDurableElect: the candidate's own term and vote.
+func sDurableElect(c *Ctx, rule string) {
 	if fn := c.Fn(rule, "(*Raft).electSelf"); fn != nil {
 		r := c.Run(&engine.Automaton{Fn: fn, Tracks: []engine.Track{
 			engine.Event("term", callWithArg0(c, "(*Raft).setCurrentTerm", "("+curTerm+" + 1)")),
@@ -419,7 +432,6 @@ func sDurable(c *Ctx, rule string) {
 			c.Bad(rule, "electSelf:self-vote", c.P.Pos(fn.Pos()), "electSelf sends its own vote on the result channel", "no send")
 		}
 	}
-	c06R5(c, rule)
 }
 
 // sInstallDurable: InstallSnapshot persists, restores, then moves positions.
